@@ -2313,6 +2313,16 @@ evhttp_parse_headers_(struct evhttp_request *req, struct evbuffer* buffer)
 		if (svalue == NULL)
 			goto error;
 
+		/* RFC 9112 5.1: no whitespace is allowed between the field
+		 * name and the colon; a server must reject such a request,
+		 * for a response the whitespace is removed. */
+		if (*skey != '\0' && (skey[strlen(skey) - 1] == ' ' ||
+			skey[strlen(skey) - 1] == '\t')) {
+			if (req->kind == EVHTTP_REQUEST)
+				goto error;
+			evutil_rtrim_lws_(skey);
+		}
+
 		svalue += strspn(svalue, " ");
 		evutil_rtrim_lws_(svalue);
 
